@@ -294,7 +294,7 @@ def value_for(draw, plist, nested_ok=True):
             kw['w'] = draw(st.sampled_from([5, 6, 7]))
         if draw(st.booleans()):
             kw['verbose'] = draw(st.booleans())
-        karg = st.one_of(values.small_ints, values.TEXT_SMALL, st.lists(values.small_ints, max_size=3))
+        karg = st.one_of(values.small_ints, values.TEXT_SMALL, TEXT_PH, st.lists(values.small_ints, max_size=3))
         if OB_MAPPING_ARGS['on']:
             karg = st.one_of(karg, st.dictionaries(st.sampled_from(['a', 'b', 'c']), values.small_ints, min_size=2,
                                                    max_size=3))
